@@ -5,6 +5,7 @@ every queue capacity, every batch size ≥ 1, blocking or not, every exporter re
 the batch timer firing at any moment.
 -/
 import Otel.C01.Lemmas3
+import Otel.C01.Progress
 import Otel.C01.Spec
 namespace Otel.C01
 
@@ -102,6 +103,15 @@ theorem bsp_shutdown_delivers (hpos : 1 ≤ maxB) (s : St) (h : Reachable cap ma
   have hi := inv_reachable cap maxB blocking hpos s h
   have hw := hi.c.shutExited (hi.c.retSd hret)
   exact ⟨hi.f.exitedOK hw, hi.d.dropNB⟩
+
+/-- no deadlock on the Shutdown path — in every reachable state in which `Shutdown` has been called and has not
+yet returned, some internal step is enabled (a step of the worker or of the shutdown goroutine, or the return
+of the exporter call in progress): Shutdown never waits for something that cannot happen. The exporter is
+assumed to return eventually; fairness (hence termination) is not claimed. -/
+theorem bsp_shutdown_never_stuck (hpos : 1 ≤ maxB) (s : St) (h : Reachable cap maxB blocking s)
+    (hsd : s.sd ≠ .none) (hret : s.sdRetOk = false) :
+    ∃ l, l.internal = true ∧ (step s l).isSome = true :=
+  shutdown_progress_of_inv s (inv_reachable cap maxB blocking hpos s h).c hsd hret
 
 /-- F22 exclusion predicate: this ForceFlush returned nil through one of the two early exits taken when a
 Shutdown is in progress (`stopped` already set, or `stopCh` winning the select). -/
